@@ -3,10 +3,12 @@
 mod cursor;
 mod decode;
 mod files;
+mod io;
 mod iters;
 mod layout;
 mod merger;
 mod open;
+mod sched;
 mod sorter;
 mod util;
 mod varint;
@@ -21,7 +23,14 @@ fn family_stream(family: &str) -> u64 {
 
 /// Runs scenario `idx` of `family` under `seed`. Everything a scenario does derives from
 /// (family, seed, idx), so any scenario can be regenerated alone for a replay.
-fn run_scenario(out: &mut TraceOut, family: &str, seed: u64, idx: u64, heavy: bool) {
+fn run_scenario(out: &mut TraceOut, family: &str, seed: u64, idx: u64, heavy: bool, scheds: &(String, String)) {
+    let with_idx = |s: &str| -> io::Sched {
+        match io::Sched::parse(s) {
+            io::Sched::Random(x) => io::Sched::Random(x.wrapping_mul(1_000_003).wrapping_add(idx)),
+            other => other,
+        }
+    };
+    io::reset(with_idx(&scheds.0), with_idx(&scheds.1), None);
     let mut r = rng(seed, family_stream(family).wrapping_add(idx.wrapping_mul(7919)));
     out.begin(&format!("{}/{}/{}", family, seed, idx));
     match family {
@@ -42,6 +51,7 @@ fn run_scenario(out: &mut TraceOut, family: &str, seed: u64, idx: u64, heavy: bo
         "varint_sweep" => varint::scn_sweep(out),
         "varint_windows" => varint::scn_windows(out, &mut r, heavy),
         "framing" => cursor::scn_framing(out, &mut r, idx, heavy),
+        "wsched" => sched::scn_wsched(out, &mut r, idx, heavy),
         "format" => layout::scn_format(out, &mut r, idx, heavy),
         "cut" => layout::scn_cut(out, &mut r, idx, heavy),
         "unsorted" => layout::scn_unsorted(out, &mut r, idx, heavy),
@@ -71,6 +81,7 @@ fn main() {
     }
     quiet_panics();
     let heavy = args.iter().any(|a| a == "--heavy");
+    let scheds: (String, String) = (arg(&args, "--rsched", "whole".to_string()), arg(&args, "--wsched", "whole".to_string()));
     match args[1].as_str() {
         "gen" => {
             let family = args[2].clone();
@@ -81,7 +92,7 @@ fn main() {
             let dir: PathBuf = PathBuf::from(arg(&args, "--out", "out/traces".to_string()));
             let mut out = TraceOut::new(&dir, &family, shards);
             for idx in first..first + count {
-                run_scenario(&mut out, &family, seed, idx, heavy);
+                run_scenario(&mut out, &family, seed, idx, heavy, &scheds);
             }
             println!("{}", out.finish());
         }
@@ -91,7 +102,7 @@ fn main() {
             let idx: u64 = args[4].parse().unwrap();
             let dir: PathBuf = PathBuf::from(arg(&args, "--out", "out/replay".to_string()));
             let mut out = TraceOut::new(&dir, "trace", 1);
-            run_scenario(&mut out, &family, seed, idx, heavy);
+            run_scenario(&mut out, &family, seed, idx, heavy, &scheds);
             println!("{}", out.finish());
         }
         other => {
